@@ -1,21 +1,24 @@
+//! Hand-written corpus of Hydro flows for the production-codegen halves of C30 (tick-scoped
+//! collections are finite batches), C31 (slices), C34 (atomic read-after-write) and C39 (quorum helpers).
+//!
+//! Conventions: every flow takes embedded inputs named `a` (and `b`) and returns the stream that the
+//! build script registers as embedded output `out` (a few flows return several outputs). The
+//! `nondet!(/** observer */)` annotations belong to the observation scaffold, not to the program judged.
 #[cfg(stageleft_runtime)]
 hydro_lang::setup!();
 
-use hydro_lang::live_collections::stream::{ExactlyOnce, TotalOrder};
+use hydro_lang::live_collections::stream::{ExactlyOnce, NoOrder, TotalOrder};
 use hydro_lang::prelude::*;
 
-/// Example flow (replace): doubles every input.
-pub fn double<'a>(input: Stream<i64, Process<'a, ()>>) -> Stream<i64, Process<'a, ()>> {
-    input.map(q!(|x| x * 2))
-}
+pub mod c30;
+pub mod c31;
+pub mod c34;
+pub mod c39;
 
-/// Example observer wrapper (replace): a singleton observed as the stream of its per-tick samples.
-pub fn running_count<'a>(
-    input: Stream<i64, Process<'a, ()>>,
-) -> Stream<usize, Process<'a, ()>, Unbounded, TotalOrder, ExactlyOnce> {
-    input
-        .count()
-        .sample_eager(nondet!(/** observer */))
-        .assume_ordering(nondet!(/** observer */))
-        .assume_retries(nondet!(/** observer */))
-}
+pub type P<'a> = Process<'a, ()>;
+/// Harness-fed input / observed output.
+pub type S<'a, T> = Stream<T, P<'a>, Unbounded, TotalOrder, ExactlyOnce>;
+/// A batch inside a tick.
+pub type B<'a, T> = Stream<T, Tick<P<'a>>, Bounded, TotalOrder, ExactlyOnce>;
+pub type BU<'a, T> = Stream<T, Tick<P<'a>>, Bounded, NoOrder, ExactlyOnce>;
+pub type KV = (i64, i64);
